@@ -41,7 +41,8 @@ def run(tier):
         rule='downstream scripts for the real StaticSmtpRelay and StaticLmtpRelay: a deviating reply class {4xx, 5xx, '
              'malformed, disconnect} at every single stage (banner, EHLO incl. 500->HELO fallback, MAIL, each RCPT, DATA, '
              'end-of-data per recipient for LMTP, RSET, QUIT), pairs of deviating stages, the full product of RCPT (and LMTP '
-             'end-of-data) classes; 1-3 recipients; PIPELINING on/off; non-trivial = at least one downstream failure event',
+             'end-of-data) classes; 1-3 recipients; envelopes that list an address twice (every copy answered alike); PIPELINING '
+             'on/off; non-trivial = at least one downstream failure event',
         trigger=lambda tr: any(e['t'] == 'peer' and (e['act'] != 'code' or e['code'] >= 400) for e in tr['ev']),
         assumptions=['when a conversation contains several failure events the result may carry the class of any of them '
                      '(DESIGN.md section 5, C11); delivered => accepted is strict',
